@@ -52,6 +52,7 @@ def run_tools(path):
 
 def run(rep, tier, seed, selftest):
     selftest = selftest or tier == "thorough"
+    state0 = pc.repo_state()
     common.build_harness(pc.EXE)
     for t in ("llvm-as", "opt"):
         if subprocess.run(["which", t], stdout=subprocess.PIPE).returncode != 0:
@@ -153,6 +154,7 @@ def run(rep, tier, seed, selftest):
                                     "ir_files": [os.path.join(p["ir"], os.path.basename(e["irf"])) for e in irs],
                                     "symbols": [verdict[e["irh"]]["symbols"] for e in irs][-2:],
                                     "message": bad[1], "how": "bin/check C03 --replay <this file>"})
+    pc.assert_same_tree(state0)
     findings.flush(rep)
     if strict_notes:
         rep.note_drift("%d module(s) whose symbol table differs from the stricter generator model (StrictOK)" % strict_notes)
